@@ -5,7 +5,7 @@ from decimal import Decimal, getcontext
 from fractions import Fraction
 
 from .. import common, tlc, traces
-from ..objects import warmup
+from ..objects import warmup, make_object
 
 PKA10 = {"C": 85, "Y": 101, "H": 65, "E": 41, "D": 39, "K": 100, "R": 125}      # only to index the 10^x table (j = 10 pH - 10 pKa)
 POSR = "KRH"
@@ -127,8 +127,8 @@ def run(ctx):
             ctx.nontrivial.add((s, ph))
     seqs = common.random_sequences(ctx.rng, ctx.pick(20, 150), ctx.pick(100, 400), 1)
     for i, s in enumerate(seqs):
-        o = lc.SP(s)
-        hist = warmup(o, ctx.rng) if i % 2 else []
+        o, s, how = make_object(lc, s, ctx.rng)
+        hist = ([{"made": how}] if how != "direct" else []) + (warmup(o, ctx.rng) if i % 2 else [])
         phs = sorted([ctx.rng.uniform(0, 14) for _ in range(ctx.pick(4, 8))] + [ctx.rng.choice(grid), 0, 14])
         ev = ph_events(ctx, o, s, phs, need, hist) + ph_events(ctx, o, s, [ctx.rng.choice(outside)], need, hist)
         p = pi_event(ctx, o, s, hist)
